@@ -19,5 +19,16 @@ def main():
             return 1
     finally:
         slot.release()
+    # differential self-test of the library models against the real crates (native cargo test)
+    st = os.path.join(os.path.dirname(HERE), 'selftest')
+    env = dict(driver.ENV, CARGO_TARGET_DIR=os.path.join(driver.CACHE, 'selftest'))
+    import shutil
+    shutil.copy(os.path.join(overlay.REPO, 'Cargo.lock'), os.path.join(st, 'Cargo.lock'))
+    r = subprocess.run(['cargo', 'test', '--offline'], cwd=st, env=env, stdout=subprocess.PIPE, stderr=subprocess.STDOUT, text=True)
+    ok = r.returncode == 0
+    print('model self-test (models vs real hashbrown/ndarray/rayon): %s' % ('ok' if ok else 'FAILED'))
+    if not ok:
+        print(r.stdout[-3000:])
+        return 1
     print('setup done in %.0fs' % (time.time() - t0))
     return 0
